@@ -70,6 +70,9 @@ def mutants():
             for m in re.finditer(r"\b(true|false)\b", code):
                 rep = "false" if m.group(1) == "true" else "true"
                 add("lit %s->%s" % (m.group(1), rep), l[:m.start()] + rep + l[m.end():])
+            m = re.match(r"^(\s*(?:\} else )?if )(?!let )(.*) \{\s*$", code)
+            if m and "SECOND" in os.environ.get("SWEEP_OPS", "SECOND"):
+                add("if negated", m.group(1) + "!(" + m.group(2) + ") {")
             s = code.strip()
             if re.match(r"^(drop\(internal\);|internal\.queue\.clear\(\);|internal\.terminate_signals\(\);|self\.wait_list\.clear\(\);|forget\(.*\);|drop\(.*\);|thread\.unpark\(\);|w\.wake\(\);|this\.state = .*;|self\.state = .*;|.*\.(send_count|recv_count) (\+|-)= 1;|.*\.(send_count|recv_count) = 0;|self\.recv_blocking = .*;|.*drop_local_data\(\);|.*register_waker\(.*\);|.*set_ptr\(.*\);|fence\(Ordering::Acquire\);|.*assume_init_drop\(\).*|.*load_and_drop\(\).*)$", s):
                 add("stmt deleted", re.sub(r"\S.*$", "();" if not s.startswith("unsafe") else "();", l, count=1))
